@@ -99,6 +99,18 @@ def make_class(rng, fields, rename_p=0.3, defaults=False, name=None):
                     arr = (np.arange(int(np.prod(_dims(sub[1])))).reshape(_dims(sub[1])) + 1).astype(DT[sub[0]])
                     dflt = arr
                     ft = xo.Field(ft, default_factory=(lambda a=arr: a.copy()))
+            elif kind == "arr":
+                # a dynamic array with a declared default (a constant array, or 1, 2, 3, ...)
+                shp = [rng.randint(1, 3) if d is None else d for d in _dims(sub[1])]
+                if rng.random() < 0.6:
+                    arr = np.full(shp, rng.choice([1, 7]), dtype=DT[sub[0]])
+                else:
+                    arr = (np.arange(int(np.prod(shp))).reshape(shp) + 1).astype(DT[sub[0]])
+                dflt = arr
+                if rng.random() < 0.5:
+                    ft = xo.Field(ft, default_factory=(lambda a=arr: a.copy()))
+                else:
+                    ft = xo.Field(ft, default=arr.tolist())
         xof[xn] = ft
         pn = xn
         if rng.random() < rename_p:
